@@ -57,7 +57,7 @@ _hist_prop("C04", ["CC.Props.C04", "CC.Props.NonVacuity"],
     "Lean theorems: the repaired revision iterator reaches every secret of every chain; rekey prepends a fresh token; a key with only older tokens cannot open an encapsulation for newer ones; a chain refreshed with keep starts with the master's newest secret and has the closed form of refreshChain_spec under the contiguity invariants; over every history (contiguity of user chains inside master chains proved as an invariant of reachable worlds): a key generated anywhere, then any operations, then refreshed with keep still holds every secret it held that the master key still holds, and still opens every encapsulation it opened through such a secret (keep_refresh_keeps_secrets, keep_refresh_still_opens). Correspondence: histories with partial rekeys, refresh with both flags, encapsulation under stale public keys; chain contents and decaps matrices compared")
 _hist_prop("C05", ["CC.Props.C05", "CC.Props.NonVacuity"],
     "Lean theorems: prune keeps exactly the newest secret of a pruned right and leaves others untouched; every secret of a key refreshed with keep is a current master secret of that right, rights gone from the master key are dropped; without keep exactly the newest secret; a key holding only master secrets cannot open an encapsulation made under removed secrets; over every history, once no attribute carries an identifier a successful update_msk leaves no right involving it (deleted_attribute_leaves_master_key). Correspondence: rekey/prune/delete/update/refresh histories, chain contents and decaps matrices compared")
-_hist_prop("C06", ["CC.Props.C06", "CC.Props.NonVacuity"],
+_hist_prop("C06", ["CC.Props.C06", "CC.Props.C16Hist", "CC.Props.NonVacuity"],
     "Lean theorems: rekey and prune never change the activation flag of the newest secret; the public key publishes a right only if its newest secret is activated; a deactivated right has no entry in any derived public key; encapsulation fails when a targeted right is unpublished; update_msk sets the flag from the structure; over every history: a disabled identifier stays disabled through every structure edit (no enable operation, identifiers never reissued), a successful update_msk deactivates every right containing it, no later operation re-activates one, so in any world reachable after disable + update encapsulation fails for every target set containing such a right (disabled_never_encryptable), while a successful update changes no secret of a right the structure still defines, so keys keep opening what they opened and stay refreshable (update_keeps_defined_rights with C04 / C09). Correspondence: histories with disable followed by update/rekey/prune/mpk re-derivation/serialisation round-trips, encaps ok/err under every public key compared")
 _hist_prop("C09", ["CC.Props.C09", "CC.Props.NonVacuity"],
     "Lean theorems characterising, for all states and arguments, exactly when each structure edit, rekey, update_msk, key generation, encapsulation and refresh fail (iff statements: encaps_ok_iff, refresh_ok_iff); over every history an issued key stays refreshable with either flag. Correspondence: histories with 35% malformed arguments (unknown/duplicate/stale names, same-dimension clauses, rollbacks of the master key); ok/err of every call compared with the model")
@@ -101,8 +101,8 @@ PROPS["C14"] = {
 }
 
 PROPS["C16"] = {
-    "modules": ["CC.Props.C16", "CC.Props.C19Conc"], "campaigns": [hist("C16", BOTH), hist("C16h", ONE)], "quick_configs": ONE, "tables": {"locks": "supporting"},
-    "level_text": "PARTIAL. Lean theorems over the model with the CSPRNG idealised as a counter of fresh tokens: the seed of every encapsulation, the AEAD nonce of every PKE ciphertext and of every encrypted metadata, the markers of every user id and the secret of every rekey are draws of their own and the counter only moves forward, so values of different calls differ for any history; the metadata key differs from the returned secret; over every history: whatever any reachable world publishes lies below the generator's counter, the counter only moves forward, so the value a rekey makes the newest secret of a right differs from every value published at any earlier moment (rekey_never_republishes). The part a model cannot exhibit (weak or mis-seeded generator, cloned state, entropy failure) is only supported by a long run of identical calls across threads and instances whose extracted tags, traps, masked seeds, ciphertexts, nonces, ids and public values must be pairwise distinct; and a history campaign (C16h: rotations, disables, updates, prunes, re-derivations of the public key, store / load) with the oracle that a public value once replaced or withdrawn is never published again, each line also compared with the model. Across threads (CC.Props.C19Conc): with a draw modelled as a read-modify-write of the shared generator state, for any threads whose accesses follow the guard discipline and any schedule the blocks of tokens handed out never overlap and no update is lost (draws_disjoint, counter_exact), with converse witnesses for an access outside the discipline (snapshot_breaks, unlocked_breaks)",
+    "modules": ["CC.Props.C16", "CC.Props.C16Hist", "CC.Props.C19Conc"], "campaigns": [hist("C16", BOTH), hist("C16h", ONE)], "quick_configs": ONE, "tables": {"locks": "supporting"},
+    "level_text": "PARTIAL. Lean theorems over the model with the CSPRNG idealised as a counter of fresh tokens: the seed of every encapsulation, the AEAD nonce of every PKE ciphertext and of every encrypted metadata, the markers of every user id and the secret of every rekey are draws of their own and the counter only moves forward, so values of different calls differ for any history; the metadata key differs from the returned secret; over every history: whatever any reachable world publishes lies below the generator's counter, the counter only moves forward, so the value a rekey makes the newest secret of a right differs from every value published at any earlier moment (rekey_never_republishes), and no operation whatsoever makes the master key publish again, for any right, a value that an earlier public key carried and that has since been replaced or whose right is gone (replaced_value_never_returns, CC.Props.C16Hist: the theorem behind the campaign oracle). The part a model cannot exhibit (weak or mis-seeded generator, cloned state, entropy failure) is only supported by a long run of identical calls across threads and instances whose extracted tags, traps, masked seeds, ciphertexts, nonces, ids and public values must be pairwise distinct; and a history campaign (C16h: rotations, disables, updates, prunes, re-derivations of the public key, store / load) with the oracle that a public value once replaced or withdrawn is never published again, each line also compared with the model. Across threads (CC.Props.C19Conc): with a draw modelled as a read-modify-write of the shared generator state, for any threads whose accesses follow the guard discipline and any schedule the blocks of tokens handed out never overlap and no update is lost (draws_disjoint, counter_exact), with converse witnesses for an access outside the discipline (snapshot_breaks, unlocked_breaks)",
     "level_note": "CsRng idealised: every draw is a fresh atom; hash / KDF outputs injective in their inputs; the statistical run is support, not proof",
 }
 PROPS["C19"] = {
